@@ -74,6 +74,10 @@ fn gen_history(rng: &mut Rng, id_base: u32, conflicting_with: Option<&Stream>) -
                     let mut ops = vec![MOp::W(s.k_lit32, width)];
                     if !float {
                         ops.push(MOp::W(s.k_lit32, 0));
+                    } else if g.rng.chance(1, 3) {
+                        let k = s.kind("FPEncoding");
+                        let n = *g.rng.pick(&s.enums[&k].numbers);
+                        ops.push(MOp::W(k, n));
                     }
                     let i = MInst {
                         opcode: if float { s.op("TypeFloat") } else { s.op("TypeInt") },
@@ -165,6 +169,10 @@ fn gen_history(rng: &mut Rng, id_base: u32, conflicting_with: Option<&Stream>) -
             let mut ops = vec![MOp::W(s.k_lit32, width)];
             if !float {
                 ops.push(MOp::W(s.k_lit32, 1));
+            } else if g.rng.chance(1, 3) {
+                let k = s.kind("FPEncoding");
+                let n = *g.rng.pick(&s.enums[&k].numbers);
+                ops.push(MOp::W(k, n));
             }
             let i = MInst {
                 opcode: if float { s.op("TypeFloat") } else { s.op("TypeInt") },
